@@ -180,7 +180,7 @@ def rule_VA(run: Run) -> RuleResult:
             if not need:
                 continue
             okp = any(need <= (set(op_targets(v, "validate")) | set(op_targets(v, "evaluate"))) and _compatible(p, v) for v in vpaths)
-            if not okp and cls.name in ("_AllOptions",):
+            if not okp and cls is run.repo.role_class("all_options"):
                 okp = selfeval
             res.add(f"{cls.qualname}:validate:path{{{','.join(sorted(need))}}} covered", okp, f, ln,
                     f"{cls.name}.evaluate path consults {sorted(need)}; " + ("some validate path covers them all" if okp else "no validate path covers them all"), nec)
@@ -361,9 +361,10 @@ def rule_EV(run: Run) -> RuleResult:
                         if key in seen:
                             continue
                         seen.add(key)
-                        ok = (cls.name, op) in ALLOWED_SELF_EVAL
+                        role_name = "_AllOptions" if cls is run.repo.role_class("all_options") else cls.name
+                        ok = (role_name, op) in ALLOWED_SELF_EVAL
                         res.add(f"{cls.qualname}:{op}:self-evaluate", ok, e.file, e.line,
-                                f"{cls.name}.{op} evaluates the object itself" + (f" (allowed: {ALLOWED_SELF_EVAL[(cls.name, op)]})" if ok else ""), nec)
+                                f"{cls.name}.{op} evaluates the object itself" + (f" (allowed: {ALLOWED_SELF_EVAL[(role_name, op)]})" if ok else ""), nec)
                     if e.kind != "op" or e.op not in ("evaluate", "transform"):
                         continue
                     if any(v.startswith("<self>.evaluate") for v in e.via):
